@@ -96,6 +96,8 @@ def gen_cases(tier, seed):
             if dynamic and r < 0.35 and nm < 2:
                 w = rng.randint(1, n)
                 post = rng.choice([1, 2]) if rng.random() < 0.12 else 0
+                if rng.random() < 0.75:         # measure a wire that is not in a basis state
+                    prog.append(("gate", rec(rng.choice(["Hadamard", "SX"]), [w])))
                 prog.append(("measure", w, int(rng.random() < 0.5), post))
                 fresh.discard(w)
                 nm += 1
